@@ -112,8 +112,22 @@ func Open(dir string, opts ...walOpt) (*WAL, error) {
 	// Load or create metaDB
 	persisted, err := w.metaDB.Load(w.dir)
 	if err != nil {
+		// The DB may have been opened (and locked) even though loading failed.
+		w.metaDB.Close()
 		return nil, err
 	}
+
+	// From here on we hold resources (the meta DB and its file lock, open
+	// segment files) that must be released again if we fail to open, otherwise
+	// the directory can't be opened again by this process.
+	opened := false
+	var openedSegments []io.Closer
+	defer func() {
+		if !opened {
+			w.closeSegments(openedSegments)
+			w.metaDB.Close()
+		}
+	}()
 
 	newState := state{
 		segments:      &immutable.SortedMap[uint64, segmentState]{},
@@ -162,6 +176,7 @@ func Open(dir string, opts ...walOpt) (*WAL, error) {
 			if err != nil {
 				return nil, err
 			}
+			openedSegments = append(openedSegments, sw)
 			// Set the tail and "reader" for this segment
 			ss := segmentState{
 				SegmentInfo: si,
@@ -184,6 +199,7 @@ func Open(dir string, opts ...walOpt) (*WAL, error) {
 			return nil, err
 		}
 
+		openedSegments = append(openedSegments, sr)
 		// Store the open reader to get logs from
 		ss := segmentState{
 			SegmentInfo: si,
@@ -219,6 +235,7 @@ func Open(dir string, opts ...walOpt) (*WAL, error) {
 		if err != nil {
 			return nil, err
 		}
+		openedSegments = append(openedSegments, w)
 		newState.tail = w
 		// Update the segment in memory so we have a reader for the new segment. We
 		// don't need to commit again as this isn't changing the persisted metadata
@@ -254,6 +271,7 @@ func Open(dir string, opts ...walOpt) (*WAL, error) {
 	// Start the rotation routine
 	go w.runRotate()
 
+	opened = true
 	return w, nil
 }
 
